@@ -103,6 +103,14 @@ def register(reg):
             'isinstance(result.phase_result, threads.ThreadTerminationError))')
   c.ensures('fresh_result_unless_stored', 'implies(self._phase_execution_outcome is None, is_fresh(result))')
   c.modifies('self._phase_execution_outcome', 'threading.Thread.alive', 'self._killed.flag')
+
+  def remember_thread_result(ex, st, env, result):
+    # ghost: the outcome object the phase thread handed back (for "the record keeps the body's result" in _execute_phase_once)
+    if 'jod.n' in st.ghost:
+      from pyvc.values import VInt as _VI
+      st.ghost['jod.result'] = _VI(result.t)
+      st.ghost['jod.n'] = _VI(st.ghost['jod.n'].t + 1)
+  c.hooks['after_call'] = remember_thread_result
   c.loop('while time.monotonic() < deadline',
          inv=[('a_stored_outcome_is_valid', 'self._phase_execution_outcome is None or (self._phase_execution_outcome.phase_result is not None and (not self._phase_execution_outcome.is_fail_subtest or self._subtest_rec is not None))')], modifies=['self._phase_execution_outcome', 'threading.Thread.alive'])
 
@@ -275,6 +283,9 @@ def register_finalize2(reg):
   c.ensures('ERROR_only_with_a_terminal_result', 'implies(%s is %s.ERROR, %s is None or %s.is_terminal or self.hit_repeat_limit)' % (out, PO, res, res))
   c.ensures('PASS_only_for_CONTINUE', 'implies(%s is %s.PASS, %s is not None and %s.phase_result is %s.CONTINUE)' % (out, PO, res, res, PR))
   c.ensures('result_only_replaced_by_an_error', '%s is %s or %s' % (res, r0, term1))
+  c.ensures('the_result_is_kept_or_replaced_by_an_exception_or_by_the_measurement_STOP',
+            '%s is %s or isinstance(%s.phase_result, phase_executor.ExceptionInfo) or (self.options.stop_on_measurement_fail and %s.phase_result is %s.STOP)'
+            % (res, r0, res, res, PR))
   runs = '(%s is not None and not %s.is_aborted and not %s.is_repeat and not %s.is_skip)'
   c.ensures('diagnosers_all_run_or_none',
             "ghost('diag_calls') == old(ghost('diag_calls')) or ghost('diag_calls') == old(ghost('diag_calls')) + len(self.diagnosers)")
@@ -323,7 +334,7 @@ def register_executor(reg):
   c = reg.contract(PE, 'PhaseExecutor._execute_phase_once', props=['C05', 'C01'])
   c.param('phase_desc', 'ref:PhaseDescriptor').param('is_last_repeat', 'bool').param('run_with_profiling', 'bool')
   c.param('subtest_rec', 'opt:ref:SubtestRecord')
-  c.ghost('diag_calls', 'int').ghost('body_starts', 'int')
+  c.ghost('diag_calls', 'int').ghost('body_starts', 'int').ghost('jod.n', 'int').ghost('jod.result', 'int')
   c.returns('ptuple(ref:PhaseExecutionOutcome;val{none,ref:object})')
   c.requires('no_phase_running', 'self.test_state.running_phase_state is None')
   c.requires('not_profiling', 'not run_with_profiling')
@@ -341,6 +352,11 @@ def register_executor(reg):
   c.ensures('repeat_limit_becomes_STOP', 'implies(result[0].phase_result is %s.REPEAT, not is_last_repeat)' % PR)
   lr = last + '.result'
   c.ensures('record_keeps_the_body_result', 'implies(%s, %s is not None)' % (one, lr))
+  # finalization may replace a result (by the exception of a raising validator / diagnoser, or by STOP under
+  # stop_on_measurement_fail); nothing else does: in particular exceeding the repeat limit does not rewrite the record's result
+  c.ensures('the_record_keeps_the_result_the_phase_thread_returned',
+            "implies(%s and ghost('jod.n') > old(ghost('jod.n')), ref_id(%s) == ghost('jod.result') or isinstance(%s.phase_result, ExceptionInfo) or "
+            "(phase_desc.options.stop_on_measurement_fail and %s.phase_result is %s.STOP))" % (one, lr, lr, lr, PR))
   c.ensures('exceeding_the_repeat_limit_is_an_ERROR_and_stops',
             'implies(%s and %s.phase_result is %s.REPEAT and is_last_repeat, %s.outcome is %s.ERROR and result[0].phase_result is %s.STOP)'
             % (one, lr, PR, last, PO, PR))
